@@ -5,19 +5,19 @@ reached directly or through symlinks x purge command x orphan-symlink payload.""
 import sys
 
 from .. import cell, scen, world
-from ..explore import product
+from ..explore import faults, product
 
 PID = 'C11'
 LEVEL = 'exploration'
 TECHNIQUE = ('bounded-exhaustive enumeration (model checking of the implementation) with a syscall-level trace monitor: payload shapes x info names x '
-             'trash-dir reachability x purge commands on the real trash-empty / trash-rm; frame snapshot + "every successful mutating syscall lands inside files/ or info/"')
+             'trash-dir reachability x purge commands on the real trash-empty / trash-rm, plus deviation-bounded fault enumeration (every system call x every errno, one deviation per run) on a sub-product; frame snapshot + "every successful mutating syscall lands inside files/ or info/"')
 LEVEL_TEXT = ('every combination of payload shape (symlinks to outside files/dirs, absolute/relative/dangling, at depth 1-3, unreadable child), info name, trash-dir reachability and purge '
               'command is executed; the world outside the operated files/ and info/ directories must be byte-identical afterwards and the interposition trace must show no '
               'successful unlink/rmdir/rename/chmod/open-for-write whose resolved entry path lies outside them')
-LEVEL_NOTE = 'trusted: the shim\'s entry-path resolution (realpath of the parent + basename); running as root, so mode-000 directories do not block deletion'
+LEVEL_NOTE = 'one injected error per run (pairs of errors are not explored for the purging commands); trusted: the shim\'s entry-path resolution (realpath of the parent + basename); running as root, so mode-000 directories do not block deletion'
 RULE = ('payload {link->outside file abs/rel, link->outside dir abs/rel, dangling, tree with outside links at depth 1,2,3, tree with mode-000 child dir, plain file} x info name '
         '{plain, x.trashinfo.trashinfo, name with newline} x reach {direct home, XDG_DATA_HOME symlink, .Trash-uid symlink, Trash/info itself a symlink with a decoy files/ beside its target} x command {empty, empty 0, rm *, rm exact} x orphan-symlink '
-        'payload {yes,no}; non-trivial = at least one deletion syscall was issued; distinct = (payload, name, reach, command, outcome)')
+        'payload {yes,no}; second stage: for every payload x reach {direct, .Trash-uid symlink, info symlink; thorough + XDG symlink} x command {empty, empty 0, rm *; thorough + rm exact} every operation of the fault-free trace answers with every errno it can return, once and (mutating calls) persistently - containment oracle only; non-trivial = at least one deletion syscall was issued; distinct = (payload, name, reach, command, outcome)')
 PAYLOADS = ['lf-abs', 'lf-rel', 'ld-abs', 'ld-rel', 'dang', 'tree1', 'tree2', 'tree3', 'tree000', 'file']
 NAMES = ['plain', 'dbl', 'newline']
 REACH = ['direct', 'xdg-link', 'alt-link', 'info-link', 'home-named-info']
@@ -30,6 +30,22 @@ def dimensions(tier):
 
 def cases(tier):
     return [{'pl': p, 'nm': n, 'reach': r, 'cmd': c, 'orphan': o} for o in (0, 1) for c in CMDS for r in REACH for n in NAMES for p in PAYLOADS]
+
+
+FAULT_BASE = {'quick': (PAYLOADS, ['direct', 'alt-link', 'info-link'], ['empty', 'empty0', 'rm-star']),
+              'thorough': (PAYLOADS, ['direct', 'alt-link', 'info-link', 'xdg-link'], ['empty', 'empty0', 'rm-star', 'rm-exact'])}
+
+
+def fault_stage(tier, cases_, outs):
+    """containment must not depend on the file system being well-behaved: for the selected points every operation of the
+    fault-free trace answers with every errno it can return (one fault per run; persistent for mutating calls)"""
+    pls, reaches, cmds = FAULT_BASE['thorough' if tier == 'thorough' else 'quick']
+    out = []
+    for c, o in zip(cases_, outs):
+        if c['nm'] == 'plain' and c['orphan'] == 1 and c['pl'] in pls and c['reach'] in reaches and c['cmd'] in cmds and o.get('ops'):
+            for f in faults.single_faults(o['ops'], sticky=True):
+                out.append(dict({k: c[k] for k in ('pl', 'nm', 'reach', 'cmd', 'orphan')}, faults=[f]))
+    return out
 
 
 def add_payload(W, path, pl, rel_out):
@@ -112,7 +128,8 @@ def run_case(c):
             'empty-v': ['trash-empty', '-v'], 'empty0-v': ['trash-empty', '-v', '0']}[c['cmd']]
     with cell.Sandbox(W.spec()) as sb:
         before = sb.snapshot()
-        r = sb.run(argv, env=env, cwd='/', now='2024-05-06T07:08:09', plan={'resolve': 'all'})
+        flts = c.get('faults') or []
+        r = sb.run(argv, env=env, cwd='/', now='2024-05-06T07:08:09', plan={'resolve': 'all', 'faults': flts} if flts else {'resolve': 'all'})
         after = sb.snapshot()
     zones = [phys + '/files', infodir]
     detail = {'argv': argv, 'exit': r.exit, 'err': r.err[-300:], 'trash': phys}
@@ -122,11 +139,21 @@ def run_case(c):
     outside = [t[:4] for t in muts if not all(any(e.startswith(z + '/') for z in zones) for e in (t[3] or t[2]))]
     nt = bool(muts) and dims
     blame = 'payload=%s|cmd=%s|reach=%s' % (c['pl'], c['cmd'], c['reach'])
+    if flts:
+        f = flts[0]
+        delivered = any(t[0] == f['at'] and t[4] == f['errno'] for t in r.trace)
+        blame += '|after-%s-failed' % f['op']
+        dims += '|%s:%s%s' % (f['op'], f['errno'], '*' if f.get('sticky') else '')
+        nt = delivered and dims
+        detail['faults'] = flts
     if frame:
         return {'verdict': 'viol', 'sig': 'C11|outside-world-changed|' + blame, 'klass': 'outside-changed', 'nontrivial': nt, 'detail': dict(detail, changed=frame[:8])}
     if outside:
         return {'verdict': 'viol', 'sig': 'C11|mutating-syscall-outside-files-info|op=%s|%s' % (outside[0][1], blame), 'klass': 'syscall-outside', 'nontrivial': nt,
                 'detail': dict(detail, ops=outside[:6])}
+    if flts:
+        # under an injected error only containment is demanded (what is purged after an error is not defined by the property)
+        return {'verdict': 'ok', 'klass': 'contained-under-fault', 'nontrivial': nt, 'detail': detail, 'delivered': delivered}
     # the victim must be gone entirely (whole removal), the bystander only for full purges
     if c['reach'] == 'info-link':
         gone = ('%s/%s.trashinfo' % (infodir, nm)) not in after and not world.under(after, '%s/files/%s' % (phys, nm))
@@ -135,7 +162,10 @@ def run_case(c):
         vs = scen.entry_state(before, after, phys, nm)
     if vs != 'purged':
         return {'verdict': 'viol', 'sig': 'C11|entry-not-purged-whole|state=%s|payload=%s|name=%s' % (vs, c['pl'], c['nm']), 'klass': 'not-purged', 'nontrivial': nt, 'detail': detail}
-    return {'verdict': 'ok', 'klass': 'contained', 'nontrivial': nt, 'detail': detail}
+    out = {'verdict': 'ok', 'klass': 'contained', 'nontrivial': nt, 'detail': detail}
+    if not flts:
+        out['ops'] = faults.ops_of(r.trace)
+    return out
 
 
 def main(tier, seed):
